@@ -117,6 +117,43 @@ def gzip_sync_stream(frames):
     return bytes(out), ends
 
 
+def gzip_members(piece_lists):
+    """Several gzip members back to back (a .gz file that later writers appended to, or parts joined with cat), each built
+    like gzip_sync_stream."""
+    return b"".join(gzip_sync_stream(pieces)[0] for pieces in piece_lists)
+
+
+def gzip_decodable_prefix_multi(data):
+    """gzip_decodable_prefix for a byte string of one or more members: the plain bytes of all complete members plus the
+    decodable part of the last (possibly cut) one.  A member counts as complete when its 8-byte trailer is present."""
+    out = bytearray()
+    while data:
+        plain, rest = _gzip_one_member(data)
+        out += plain
+        if rest is None:
+            break
+        data = rest
+    return bytes(out)
+
+
+def _gzip_one_member(data):
+    """-> (plain bytes decodable from the first member, bytes after its trailer or None if the member is not complete)."""
+    if len(data) < 10 or data[:2] != b"\x1f\x8b" or data[3] != 0:
+        return b"", None
+    do = zlib.decompressobj(-zlib.MAX_WBITS)
+    out = bytearray()
+    i = 10
+    while i < len(data) and not do.eof:
+        try:
+            out += do.decompress(data[i : i + 1])
+        except zlib.error:
+            return bytes(out), None
+        i += 1
+    if not do.eof or len(data) - i < 8:
+        return bytes(out), None
+    return bytes(out), data[i + 8 :]
+
+
 def gzip_decodable_prefix(data):
     """Independently decompress as much of a (possibly cut) gzip byte string as is decodable."""
     if len(data) < 10 or data[:2] != b"\x1f\x8b":
